@@ -615,6 +615,10 @@ func defaultValue(c *schema.Column) (string, error) {
 		case *schema.BoolType, *schema.DecimalType, *schema.IntegerType, *schema.FloatType:
 			return x.V, nil
 		default:
+			// BLOB literals (e.g. X'ABCD') are not strings.
+			if isBlob(x.V) {
+				return x.V, nil
+			}
 			return sqlx.SingleQuote(x.V)
 		}
 	case *schema.RawExpr:
